@@ -34,7 +34,7 @@ def configs():
             for rx in range(4):
                 layouts = ["two_proc"] + (["one_proc"] if tx == 0 and rx == 0 else [])
                 for layout in layouts:
-                    cons = ["sync", "sync_uc", "receive", "async_with"] if api == "flag" else ["sync", "sync_uc", "mb_receive"]
+                    cons = ["sync", "sync_uc", "receive", "async_with"] if api == "flag" else ["sync", "sync_uc", "mb_receive", "mb_exec_after"]
                     if layout == "one_proc":
                         cons = ["sync"]
                     for c in cons:
@@ -134,13 +134,19 @@ def render_src(cfg):
             L += ["        @cctx", "        async def consumer():", "            await self.c_take", "            await flag.receive()", "            self.got ^= True", f"            self.got_data <<= {rd}"]
         elif c == "async_with":
             L += ["        @cctx", "        async def consumer():", "            await self.c_take", "            async with flag:", "                self.got ^= True", f"                self.got_data <<= {rd}"]
+        elif c == "mb_exec_after":
+            # the receive runs inside an executor that the context converts after its own body (std.Executor.make_after): the
+            # flag's delay lines are then created while those executors are being converted
+            # (the event counts as consumed where receive() returns, i.e. inside the executor; exec() hands the value back later)
+            L += ["        async def fetch():", "            d = await mb.receive()", "            self.got ^= True", "            self.got_data <<= d", "            return d", f"        fetcher = std.Executor.make_after(fetch, result=Variable[Unsigned[{W}]]())"]
+            L += ["        @cctx", "        async def consumer():", "            await self.c_take", "            await fetcher.ready()", "            await fetcher.exec()"]
         elif c == "mb_receive":
             L += ["        @cctx", "        async def consumer():", "            await self.c_take", "            d = await mb.receive()", "            self.got ^= True", "            self.got_data <<= d"]
     return "\n".join(L) + "\n"
 
 
 def bound(cfg):
-    return 2 * (cfg["tx"] + cfg["rx"]) + 8
+    return 2 * (cfg["tx"] + cfg["rx"]) + 8 + (6 if cfg["consumer"] == "mb_exec_after" else 0)
 
 
 class History:
